@@ -241,30 +241,29 @@ def scaleFirst (l : List Rat) (f : Rat) : Option (List Rat) :=
   | a :: t => some (a * f :: t)
 
 /-- body of the loop of `resampleStepwise` for one output cell `[xo0, xo1]` with
-`start = bins[i-1]`, `end = bins[i]`; `none` = the code raises. -/
-def resampleCell (xin yin : List Rat) (avg : Bool) (xo0 xo1 : Rat) : Option Rat := do
-  let start := digitize xin xo0
-  let end_ := digitize xin xo1
+`start = bins[i-1]`, `end = bins[i]`; `none` = the code raises. Follows the code after the F25 repair
+(`rightFraction`, `start == end` branch). -/
+def resampleBody (xin yin : List Rat) (avg : Bool) (xo0 xo1 : Rat) (start end_ : Int) : Option Rat := do
   let chunk := pySlice yin (start - 1) end_
   let length := diffs (pySlice xin (start - 1) (end_ + 1))
   if chunk.isEmpty then return 0
   let n : Int := xin.length
   -- trim any partial right-side bins
   let xr ← pyIndex xin (if end_ ≤ n - 1 then end_ else n - 1)
-  let (chunk, length) ←
+  let (chunk, length, rightFraction) ←
     if xo1 < xr then do
       let xe1 ← pyIndex xin (end_ - 1)
       let xe ← pyIndex xin end_
       let fraction := (xo1 - xe1) / (xe - xe1)
       if xe - xe1 = 0 then none
-      else if fraction = 0 then pure (chunk.dropLast, length.dropLast)
+      else if fraction = 0 then pure (chunk.dropLast, length.dropLast, (1 : Rat))
       else if avg then do
         let l' ← scaleLast length fraction
-        pure (chunk, l')
+        pure (chunk, l', (1 : Rat))
       else do
         let c' ← scaleLast chunk fraction
-        pure (c', length)
-    else pure (chunk, length)
+        pure (c', length, fraction)
+    else pure (chunk, length, (1 : Rat))
   -- trim any partial left-side bins
   let xl ← pyIndex xin (start - 1)
   let (chunk, length) ←
@@ -276,6 +275,10 @@ def resampleCell (xin yin : List Rat) (avg : Bool) (xo0 xo1 : Rat) : Option Rat 
       else if avg then do
         let l' ← scaleFirst length fraction
         pure (chunk, l')
+      else if start = end_ then do
+        -- the output bin lies within one input bin: covered share is fr + fl - 1
+        let c' ← scaleFirst chunk ((rightFraction + fraction - 1) / rightFraction)
+        pure (c', length)
       else do
         let c' ← scaleFirst chunk fraction
         pure (c', length)
@@ -284,6 +287,10 @@ def resampleCell (xin yin : List Rat) (avg : Bool) (xo0 xo1 : Rat) : Option Rat 
     let ws := ((List.zip chunk length).map (fun p => p.1 * p.2)).sum
     if length.sum = 0 then none else pure (ws / length.sum)
   else pure chunk.sum
+
+/-- one output cell: `start`/`end` are the `np.digitize` bins of its two boundaries -/
+def resampleCell (xin yin : List Rat) (avg : Bool) (xo0 xo1 : Rat) : Option Rat :=
+  resampleBody xin yin avg xo0 xo1 (digitize xin xo0) (digitize xin xo1)
 
 def cellsOf : List Rat → List (Rat × Rat)
   | a :: b :: t => (a, b) :: cellsOf (b :: t)
